@@ -173,6 +173,10 @@ var extraNames = []string{"Server", "Date", "X-Powered-By", "Sec-WebSocket-Versi
 	"Connection-Id", "X-Upgrade", "Sec-WebSocket-Accept2", "Sec-WebSocket-Accep", "Content-Length", "Set-Cookie", "Via", "Upgrad", "Connectio", "x", "Sec-WebSocket-Protocols", "Sec-WebSocket-Extension"}
 var extraValues = []string{"", "x", "gobwas", "Upgrade: websocket", "websocket", "Upgrade", "0", "5", "a=b; Path=/", "Thu, 01 Oct 2026 00:00:00 GMT", "HTTP/1.1 101 Switching Protocols", "ünïcödé", ":", "::"}
 
+// Prefixes are byte strings put before the status line: the first line of such
+// a response is not a status line.
+var Prefixes = []string{"\r\n", "\n", "\r", " ", "\t", "\r\n\r\n", "\n\n", "\r\n\n", " \r\n", "\r\n ", "\n\r\n\r\n"}
+
 // RawLines are deliberately unusual header lines (class open).
 var RawLines = []string{"NoColonHere", " folded: continuation", "\tfolded", "Upgrade websocket", "X-Foo : bar", ": empty-name", "Upgrade : websocket", " Connection: Upgrade", "X Y: z"}
 
@@ -376,7 +380,9 @@ func Gen(t *rapid.T, label string, cfg Config, o Opts) *Response {
 	}
 	cut := false
 	for d := 0; d < ndev; d++ {
-		switch rapid.IntRange(0, 21).Draw(t, L("dev")) {
+		switch rapid.IntRange(0, 22).Draw(t, L("dev")) {
+		case 22: // stray line ends / blanks before the status line
+			r.Prefix = rapid.SampledFrom(Prefixes).Draw(t, L("prefix"))
 		case 0, 1: // status token
 			switch rapid.IntRange(-1, 5).Draw(t, L("stkind")) {
 			case -1:
